@@ -198,7 +198,8 @@ def crash(eng):
     lens = collections.Counter(d["len"] for d in recs)
     return {"fails": fails, "evaluations": len(recs), "distinct": ["%s/%d/%d/%s" % (d["name"], d["len"], d["k"], d["variant"]) for d in recs],
             "coverage": {"crash_points": len(recs), "variants": dict(var), "node_lengths": dict(lens),
-                         "exhaustive_over_offsets": "every k in 0..len for each generated node, both variants"},
+                         "children_killed_by_SIGXFSZ": sum(1 for d in recs if d.get("killed")),
+                         "exhaustive_over_offsets": "every k in 0..len for each generated node, both variants (ignore: the write fails with EFBIG; die: SIGXFSZ at its default disposition kills the child inside write(2))"},
             "samples": recs[:2]}
 
 def replay_backend(eng, d):
